@@ -424,7 +424,17 @@ namespace riddle
         std::vector<std::pair<const std::vector<id_token>, const id_token>> pars;
         std::vector<const statement *> stmnts;
 
-        if (!match(VOID_ID))
+        if (match(BOOL_ID)) // a primitive return type..
+            rt.emplace_back(id_token(0, 0, 0, 0, BOOL_KEYWORD));
+        else if (match(INT_ID))
+            rt.emplace_back(id_token(0, 0, 0, 0, INT_KEYWORD));
+        else if (match(REAL_ID))
+            rt.emplace_back(id_token(0, 0, 0, 0, REAL_KEYWORD));
+        else if (match(TP_ID))
+            rt.emplace_back(id_token(0, 0, 0, 0, TP_KEYWORD));
+        else if (match(STRING_ID))
+            rt.emplace_back(id_token(0, 0, 0, 0, STRING_KEYWORD));
+        else if (!match(VOID_ID))
         {
             do
             {
